@@ -7,6 +7,7 @@ import J5V.Conc.SchedHBDec
 import J5V.Conc.SchedRW
 import J5V.Conc.SchedRWSerial
 import J5V.Conc.CacheProofs
+import J5V.Conc.ClashProofs
 import J5V.Generated.LocksFacts
 /-!
 # C10 — shared codecs and schema caches are safe for concurrent use
@@ -629,5 +630,45 @@ theorem C10_m2_mid_build_state (G : Graph) (c : Cache) (d : Nat) :
 
 /-- the request that fails in the middle of somebody else's build succeeds alone -/
 example : (schemaOf demo emptyCache 0).2 = .ok ∧ (schemaOf demo (insert emptyCache 0 none) 0).2 = .err := by decide
+
+/-! ## Schema-name collisions: a recorded finding (`cache-history:schema-name-clash`)
+
+`J5V.Conc.Cache` identifies a schema with its descriptor, so `C10_cache_transparent` is the
+theorem for descriptor sets with distinct schema names. `splitDescriptorName` is not injective;
+on the collision family (`Conc/Clash.lean`) the full statement fails and the partial one holds. -/
+
+open J5V.Conc.Clash in
+/-- the full statement on the collision family: every request answers as it does alone -/
+def ClashTransparent : Prop := ∀ (rs : List Nat) (r : Nat), r < 6 → (req (run rs) r).2 = (req J5V.Conc.Clash.init r).2
+
+open J5V.Conc.Clash in
+/-- alone, every request of the family succeeds -/
+theorem C10_name_clash_alone_ok : ∀ r, r < 6 → (req J5V.Conc.Clash.init r).2 = true := by decide
+
+open J5V.Conc.Clash in
+/-- `Foo_Bar` after `Foo.Bar` is a schema error, alone it is fine (the witness op `clash m 1,2,4`) -/
+theorem C10_name_clash_counterexample : ¬ ClashTransparent := by
+  intro h
+  have := h [1] 2 (by decide)
+  revert this
+  decide
+
+open J5V.Conc.Clash in
+/-- … and exactly that class is the exception: as long as the requests made so far and the request
+itself do not need the colliding name for *both* descriptors, the request answers as alone. -/
+theorem C10_name_clash_partial (rs : List Nat) (r : Nat) (hr : r < 6)
+    (h : ((r :: rs).any touchesN && (r :: rs).any touchesT) = false) :
+    (req (J5V.Conc.Clash.run rs) r).2 = (req J5V.Conc.Clash.init r).2 := by
+  rw [C10_name_clash_alone_ok r hr]
+  simp only [List.any_cons, Bool.and_eq_false_iff, Bool.or_eq_false_iff, List.any_eq_false] at h
+  rcases h with ⟨hN, hNs⟩ | ⟨hT, hTs⟩
+  · have ho := J5V.Conc.Clash.clash_owner_not_N rs J5V.Conc.Clash.init (by decide) (fun x hx => by simpa using hNs x hx)
+    exact (J5V.Conc.Clash.clash_step_not_N _ r ho hN).2 hr
+  · have ho := J5V.Conc.Clash.clash_owner_not_T rs J5V.Conc.Clash.init (by decide) (fun x hx => by simpa using hTs x hx)
+    exact (J5V.Conc.Clash.clash_step_not_T _ r ho hT).2 hr
+
+/-- the exception is real and the hypothesis of the partial theorem is satisfiable on both sides -/
+example : (J5V.Conc.Clash.req (J5V.Conc.Clash.run [0, 1, 4]) 1).2 = true ∧ (J5V.Conc.Clash.req (J5V.Conc.Clash.run [3, 5, 2]) 3).2 = true ∧
+    (J5V.Conc.Clash.req (J5V.Conc.Clash.run [3]) 0).2 = false := by decide
 
 end J5V.Props.C10
